@@ -1,4 +1,5 @@
 import Ktm.PersistOps
+import Ktm.PersistSecond
 import Ktm.Props.C02
 /-! # C08 — a crash between any two writes leaves a resumable, consistent project
 
@@ -104,15 +105,36 @@ theorem resumed_run_ok (alg : Alg V A) (r : Oracle V A) (hr : Inv r) (m : Nat) (
     (run alg r ops).trials.length ≤ m ∧ (Inv (run alg r ops) ∨ (run alg r ops).aborted = true) :=
   ⟨(Props.C02.budget_reachable alg r ops m hm (hr.budget m hm)).2, inv_reachable alg r ops hr⟩
 
-/-- partial: a *second* crash during the resumed run is covered by `restart_after_crash` again once the
-resumed run has completed an operation that writes the oracle file (the reloaded state and the disk are
-then `DiskOK` again by `diskOK_commit`); the window between the reload and that first oracle-file write
-(in which the oracle file still lists the old ongoing map) is exercised by the crash suite, not proved. -/
-theorem second_crash_partial (alg : Alg V A) (s : Oracle V A × Disk V A) (h : Inv s.1) (hd : DiskOK s.1 s.2)
-    (ops : List Op) (op : Op) (k : Nat) (hna : (runD alg s ops).1.aborted = false) :
-    ∃ base, Inv base ∧ DiskOK base (crashDisk alg s ops op k) :=
-  let ⟨b, _, hi, hdk⟩ := crash_disk_consistent alg s h hd ops op k hna
-  ⟨b, hi, hdk⟩
+/-- **a second crash** (and by repetition a third, a fourth …): take any disk that is consistent with a state
+satisfying the invariant — by `crash_disk_consistent` every crash point of a run leaves such a disk — and restart on it.
+The restarted process can only begin by asking for trials. At EVERY crash point of every one of those requests (after
+`k` of its writes) the disk is again consistent with a state satisfying the invariant: the old base as long as the
+oracle file has not been rewritten (between the restart and the first oracle-file write the oracle file still lists the
+OLD ongoing map and retry queue; only the trial file of a brand-new trial can have been added), the new state from that
+write on … -/
+theorem second_crash_consistent (alg : Alg V A) (base : Oracle V A) (d : Disk V A) (hb : Inv base) (hd : DiskOK base d)
+    (cfg r : Oracle V A)
+    (hcfg : cfg.maxTrials = base.maxTrials ∧ cfg.maxRetries = base.maxRetries ∧ cfg.maxConsec = base.maxConsec ∧ cfg.aborted = base.aborted)
+    (hr : reload cfg d = some r) (pre : List (Nat × Nat)) (tuner c k : Nat) :
+    ∃ b, Inv b ∧ DiskOK b (stepD alg k (runD alg (r, d) (creates pre)) (.create tuner c)).2 := by
+  obtain ⟨r', hr', hinv, _, _, hlen⟩ := reload_good base cfg d hb hd hcfg
+  rw [hr] at hr'; cases hr'
+  obtain ⟨htf, hong⟩ := tf_reload cfg r d hr
+  exact (second_crash alg base hb pre r d hinv htf hong hd hlen.symm).1 tuner c k
+
+/-- … and once those first requests are done, either no trial was handed out and disk and memory are exactly as right
+after the restart, or memory and disk are consistent again (`DiskOK`), so that every later crash point of the resumed
+run is a first-crash point again (`crash_disk_consistent`, `restart_after_crash`) -/
+theorem resumed_run_consistent_again (alg : Alg V A) (base : Oracle V A) (d : Disk V A) (hb : Inv base) (hd : DiskOK base d)
+    (cfg r : Oracle V A)
+    (hcfg : cfg.maxTrials = base.maxTrials ∧ cfg.maxRetries = base.maxRetries ∧ cfg.maxConsec = base.maxConsec ∧ cfg.aborted = base.aborted)
+    (hr : reload cfg d = some r) (pre : List (Nat × Nat)) :
+    DiskOK (runD alg (r, d) (creates pre)).1 (runD alg (r, d) (creates pre)).2 ∨
+    ((runD alg (r, d) (creates pre)).2 = d ∧ TF (runD alg (r, d) (creates pre)).1 d ∧ (runD alg (r, d) (creates pre)).1.ongoing = []) := by
+  obtain ⟨r', hr', hinv, _, _, hlen⟩ := reload_good base cfg d hb hd hcfg
+  rw [hr] at hr'; cases hr'
+  obtain ⟨htf, hong⟩ := tf_reload cfg r d hr
+  exact (second_crash alg base hb pre r d hinv htf hong hd hlen.symm).2
 
 /-- non-vacuity: crash between the two writes of `end_trial` (k = 1): the trial file says COMPLETED, the
 oracle file still lists the trial as running ⇒ after restart it is queued and run again, once -/
